@@ -226,10 +226,11 @@ CollectFees(bn) ==
       tg == FFloor(BMin(b.fee_grp, avail1))
       avail2 == BSub(avail1, tg)
       tp == FFloor(BMin(b.fee_prog, avail2))
-      ata == "ata." \o g.fee_cache.wallet \o "." \o b.mint
+      \* the token account of the wallet the global fee state names now (not of the copy the group cached earlier)
+      ata == "ata." \o st.fee.wallet \o "." \o b.mint
       out == BAdd(BAdd(FToInt(ti), FToInt(tg)), FToInt(tp))
       b2 == [b EXCEPT !.fee_ins = BSub(@, ti), !.fee_grp = BSub(@, tg), !.fee_prog = BSub(@, tp)]
-      tok0 == IF Has(st.tok, ata) THEN st.tok ELSE st.tok @@ (ata :> [mint |-> b.mint, owner |-> g.fee_cache.wallet, amount |-> BZero, withheld |-> BZero])
+      tok0 == IF Has(st.tok, ata) THEN st.tok ELSE st.tok @@ (ata :> [mint |-> b.mint, owner |-> st.fee.wallet, amount |-> BZero, withheld |-> BZero])
       tok4 == Xfer(Xfer(Xfer(tok0, MintOf(bn), b.vault_liq, b.vault_fee, FToInt(tg)), MintOf(bn), b.vault_liq, b.vault_ins, FToInt(ti)),
                    MintOf(bn), b.vault_liq, ata, FToInt(tp))
       post == [st EXCEPT !.banks[bn] = b2, !.tok = tok4]
